@@ -39,3 +39,49 @@ func H_C01_snapshot() {
 	vxrt.Assert(vxrt.FSStamp() == stamp, "C01:replay-no-write")
 	vxrt.Assert(vxrt.Eq(dumpDir(dir), before), "C01:replay-dir-unchanged")
 }
+
+// jsonTemplate builds a small JSON document with symbolic leaves:
+// 0: {"k":"<s>"}   1: ["<s>",<digit>]   2: {"b":<digit>,"a":"<s>"}
+func jsonTemplate(label string, n int) string {
+	s := vxrt.Text(label, vxrt.Len(label+"-len", 0, n))
+	// string content: printable ASCII without quote and backslash
+	for i := 0; i < len(s); i++ {
+		vxrt.Assume(vxrt.And(vxrt.And(s[i] >= 0x20, s[i] < 0x7f), vxrt.And(s[i] != '"', s[i] != '\\')))
+	}
+	switch vxrt.Choice(label+"-shape", 3) {
+	case 0:
+		return `{"k":"` + s + `"}`
+	case 1:
+		d := vxrt.Text(label+"-digit", 1)
+		vxrt.Assume(vxrt.And(d[0] >= '0', d[0] <= '9'))
+		return `["` + s + `",` + d + `]`
+	default:
+		d := vxrt.Text(label+"-digit", 1)
+		vxrt.Assume(vxrt.And(d[0] >= '0', d[0] <= '9'))
+		return `{"b":` + d + `,"a":"` + s + `"}`
+	}
+}
+
+// H_C01_json: record one MatchJSON document, then replay it.
+func H_C01_json() {
+	vxrt.CI(false)
+	dir := vxrt.Dir()
+	c := WithConfig(Dir(dir), Filename("f"))
+	doc := jsonTemplate("doc", vxrt.Param("n", 2))
+
+	t1 := newT("TestA")
+	c.MatchJSON(t1, doc)
+	t1.end()
+	vxrt.Assert(len(t1.errors) == 0, "C01:record-no-error")
+	vxrt.Assert(len(t1.logs) == 1, "C01:record-logs-added")
+	stamp := vxrt.FSStamp()
+	before := dumpDir(dir)
+
+	t2 := newT("TestA")
+	c.MatchJSON(t2, doc)
+	t2.end()
+	vxrt.Assert(len(t2.errors) == 0, "C01:replay-no-error")
+	vxrt.Assert(len(t2.logs) == 0, "C01:replay-no-log")
+	vxrt.Assert(vxrt.FSStamp() == stamp, "C01:replay-no-write")
+	vxrt.Assert(vxrt.Eq(dumpDir(dir), before), "C01:replay-dir-unchanged")
+}
